@@ -180,6 +180,10 @@ def gen_view_trace(rng, length=40, queries="dense", strays=True, stray_consisten
 def gen_kv_trace(rng, length=14, exhaustive_seq=None):
     """C13: KV writes over a 3-key x 3-instance alphabet + shard submissions, snapshot in the middle"""
     keys = [4, 3, 9]
+    if rng.random() < 0.3:
+        # keys that look like an encoding of another key (or differ from it by case / blanks / padding / JSON-sensitive characters):
+        # they are different keys for the DB, before and after a snapshot
+        keys = [9, 7] + rng.sample(list(range(9101, 9113)), 3)
     ops = []
 
     def kvop():
@@ -264,6 +268,12 @@ def gen_launch_trace(rng):
     if rng.random() < 0.15:
         ops.append(("Q", [w.random_request()]))          # a non-launch batch first
     mode = rng.choice(["complete", "complete", "late", "never", "mixed", "undefined-shard", "partial"])
+    # what the real agent sends: freshly launched groups report membership version 0, and once Drummer knows a shard's version the
+    # other members' reports carry Incomplete (or Pending) entries without membership - they count as "reporting" all the same
+    thin = rng.random() < 0.3
+    if thin:
+        for s_ in w.hist:
+            w.hist[s_][0] = (rng.choice([0, 0, w.hist[s_][0][0]]), w.hist[s_][0][1])
     if mode == "mixed":
         ops.append(("Q", w.launch_batch() + [w.random_request()]))
         ops += [("T",), ("LS",), ("H",)]
@@ -292,6 +302,14 @@ def gen_launch_trace(rng):
             skip = max(w.hist) if (mode == "undefined-shard" and len(w.hist) >= 2 and rng.random() < 0.5) else None
             for a in hs:
                 fr = full_report(w, a)
+                if thin and a != hs[0]:
+                    for ci in fr["infos"]:
+                        if rng.random() < 0.75:
+                            ci["members"] = []
+                            if rng.random() < 0.3:
+                                ci["pending"], ci["cci"] = True, 0
+                            else:
+                                ci["incomplete"] = True
                 if skip is not None:
                     fr["infos"] = [ci for ci in fr["infos"] if ci["shard"] != skip]
                     fr["shard_ids"] = [x for x in fr["shard_ids"] if x != skip]
@@ -342,6 +360,29 @@ def gen_launch_idle_trace(rng):
             ops += [("R", dict(idle)), ("LC",)]
         ops.append(("T",))
     ops += [("LS",), ("LK", 2), ("LC",), ("H",), ("SNAP",), ("R", full_report(w, hosts[0])), ("LC",), ("T",)]
+    return ops
+
+
+def gen_failstop_revive_trace(rng):
+    """C09 / C03: the fail-stop latch against RecoverFromSnapshot: a snapshot is kept inside the launch window, the launch is never
+    completed, every replica fail-stops at the first tick after the deadline; the kept snapshot is then handed to a replica that has
+    fail-stopped: the restore must be refused and everything afterwards too."""
+    w = World(rng, nhosts=rng.randint(3, 5), nshards=rng.randint(1, 3))
+    ops = w.shard_ops() + ticks(rng.choice([1, 2]))
+    ops += [("Q", w.launch_batch()), ("LK", 2)]
+    hosts = list(w.hosts)
+    keep_t = rng.choice([0, 1, LDT // 2, LDT - 1, LDT])
+    silent = min(w.hist[max(w.hist)][-1][1])          # one member of the last shard never reports: the launch cannot complete
+    for t in range(0, LDT + 3):
+        if t == keep_t:
+            ops.append(("KEEPSNAP",))
+        if rng.random() < 0.5:
+            fr = full_report(w, rng.choice(hosts))
+            fr["infos"] = [ci for ci in fr["infos"] if ci["replica"] != silent]
+            fr["shard_ids"] = sorted({ci["shard"] for ci in fr["infos"]})
+            ops += [("R", fr), ("LC",)]
+        ops.append(("T",))
+    ops += [("H",), ("REVIVE",), ("H",), ("LC",), ("T",), ("R", full_report(w, hosts[0])), ("LS",), ("SNAP",), ("Q", [w.random_request()]), ("T",)]
     return ops
 
 
